@@ -7,6 +7,7 @@ import (
 	"math/rand"
 	"net"
 	"net/url"
+	"sort"
 	"strconv"
 	"strings"
 	"time"
@@ -344,6 +345,60 @@ func c04Lookalikes(c *mon.Ctx, r *rand.Rand) {
 	c.Count("lookalike_histories")
 }
 
+// c04Quantified: the pairs inside a quantifier body over one-element typed
+// lists (the element bound by value): `any L as x { x == v }` is the
+// complement of `any L as x { x != v }`, and equals `any L as x { not (x != v) }`.
+func c04Quantified(c *mon.Ctx, r *rand.Rand) {
+	lists := map[string]interface{}{
+		"jn": []json.Number{"8080.0"}, "jn2": []json.Number{"1e2"}, "jni": []interface{}{json.Number("8080.0")}, "f32": []float32{0.1}, "i8": []int8{-5}, "u": []uint{7}, "s": []string{"8080"}, "b": []bool{true},
+		"pj": []*json.Number{func() *json.Number { n := json.Number("8080.0"); return &n }()}, "aj": [1]json.Number{"8080.0"}, "nm": []univ.NString{"8080"},
+	}
+	lits := []string{"8080", "8080.0", "100", "1e2", "0.1", "-5", "7", "true", "x", "+7", "0x1f90"}
+	var names []string
+	for k := range lists {
+		names = append(names, k)
+	}
+	sort.Strings(names)
+	for k := 0; k < 6; k++ {
+		name, lit := names[r.Intn(len(names))], lits[r.Intn(len(lits))]
+		q := strconv.Quote(lit)
+		forms := map[string]string{
+			"any-eq":     fmt.Sprintf(`any %s as x { x == %s }`, name, q),
+			"any-ne":     fmt.Sprintf(`any %s as x { x != %s }`, name, q),
+			"any-not-ne": fmt.Sprintf(`any %s as x { not (x != %s) }`, name, q),
+			"all-ne":     fmt.Sprintf(`all %s as _, x { x != %s }`, name, q),
+			"elem-eq":    fmt.Sprintf(`%s.0 == %s`, name, q),
+			"any-in":     fmt.Sprintf(`%s in %s`, q, name),
+		}
+		out := map[string]string{}
+		for f, text := range forms {
+			ev, err, pan, _ := createEval(text)
+			if pan != "" || err != nil {
+				out[f] = "rejected"
+				continue
+			}
+			out[f] = evaluate(ev, lists).Class3()
+			c.Evals(1)
+		}
+		bad := ""
+		switch {
+		case out["any-eq"] != notTable(out["any-ne"]):
+			bad = "any-eq vs any-ne"
+		case out["any-eq"] != out["any-not-ne"]:
+			bad = "any-eq vs any-not-ne"
+		case out["all-ne"] != out["any-ne"]:
+			bad = "all-ne vs any-ne (one element)"
+		case out["any-eq"] != out["elem-eq"]:
+			bad = "any-eq vs elem-eq (one element)"
+		}
+		if bad != "" {
+			c.Violation("C04 quantified "+bad+" list="+name, "inside a quantifier body over a one-element list the operator pair is not complementary / does not equal the element-wise comparison", map[string]any{"list": name, "literal": lit, "outcomes": out, "forms": forms})
+			return
+		}
+	}
+	c.Count("quantified_pair_cases")
+}
+
 func c04NativeQ(c *mon.Ctx, datum interface{}, sel string, q string, label string) {
 	forms := map[string]string{
 		"eq": sel + " == " + q, "ne": sel + " != " + q, "not-eq": "not (" + sel + " == " + q + ")", "not-ne": "not (" + sel + " != " + q + ")",
@@ -442,6 +497,9 @@ func c04Run(c *mon.Ctx, idx int) {
 	}
 	if idx%16 == 9 {
 		c04Lookalikes(c, r)
+	}
+	if idx%16 == 11 {
+		c04Quantified(c, r)
 	}
 	if idx%16 == 7 {
 		// float32 values next to a midpoint, literal a hair above / below it
@@ -565,7 +623,7 @@ func init() {
 		Run:         c04Run,
 		Heavy:       func(tier string, idx int) bool { return idx < len(c04Depths) && c04Depths[idx] > 60000 },
 		Required: func(tier string) []string {
-			l := []string{"contains_pairs", "zoo_cases", "native_relation_sets", "float32_midpoint_cases", "lookalike_histories", "clause_at_depth_cases"}
+			l := []string{"contains_pairs", "zoo_cases", "native_relation_sets", "float32_midpoint_cases", "lookalike_histories", "clause_at_depth_cases", "quantified_pair_cases"}
 			for _, op := range []string{"==", "in", "is empty", "matches"} {
 				l = append(l, "pair:"+op+"/T", "pair:"+op+"/F", "pair:"+op+"/E", "pair-absent:"+op)
 			}
